@@ -142,6 +142,8 @@ def finish_deps_hold(info, tn, sn):
 
 def mon_c02(ex, info, col):
     out = []
+    if ex.opts.get("backward"):
+        info = info.reversed_view()  # the observed run is the inner run of backward_simulate: links are followed from successor to predecessor
     bs = ex.by_step()
     prev_rec = None
     for t in sorted(bs):
@@ -201,6 +203,30 @@ def mon_c02(ex, info, col):
                                  {"task": tn, "t": t, "before": a[1], "after": b[1]}))
         if "recorded" in phs:
             prev_rec = phs["recorded"][1]
+    # logs after remove_absence_time_list(): what is left are working steps, so every logged WORKING step shows exactly the progress of its logged allocation
+    # (models without personal calendars; a backward result with reversed logs is read in the order the run produced it)
+    if ex.opts.get("post_remove") and not ex.opts.get("post_insert") and not ex.opts.get("res_absence") and ex.error is None \
+            and not any(r.get("absence") or r.get("absence_after") for r in list(info.workers.values()) + list(info.facilities.values())):
+        flip = bool(ex.opts.get("backward")) and bool(ex.opts.get("rev", True))
+        for tn in info.tnames:
+            task = ex.m.byname[tn]
+            sl = [int(s) for s in task.state_record_list]
+            rl = list(task.remaining_work_amount_record_list)
+            wl = [list(e or ()) for e in task.allocated_worker_id_record]
+            fl = [list(e or ()) for e in task.allocated_facility_id_record]
+            if flip:
+                sl, rl, wl, fl = sl[::-1], rl[::-1], wl[::-1], fl[::-1]
+            for k in range(1, min(len(sl), len(rl), len(wl), len(fl))):
+                col.checks["c02.log-perform"] += 1
+                if sl[k] == S.T_WORKING:
+                    c = contribution(ex, info, tn, k, True, {"tasks": {tn: (S.T_WORKING, rl[k - 1], tuple(wl[k]), tuple(fl[k]))}})
+                elif sl[k] in (S.T_NONE, S.T_READY):
+                    c = 0.0
+                else:
+                    continue
+                if abs((rl[k - 1] - rl[k]) - c) > TOL:
+                    out.append(V("C02", "C02:logged-progress-differs-from-logged-allocation(after-removal-of-absence-steps)", ex,
+                                 {"task": tn, "k": k, "state": S.TSTATE_NAME.get(sl[k]), "before": rl[k - 1], "after": rl[k], "expected_decrease": c, "workers": wl[k], "facilities": fl[k]}))
     # logs: remaining is reported 0 from the step a task is first logged FINISHED; initial value
     for tn in info.tnames:
         task = ex.m.byname[tn]
